@@ -417,8 +417,9 @@ class Gen:
         if k == 8:
             return BoolConst(r.random() < 0.5)
         if k == 9:
-            c = r.choice([RealConst("1.5", "1.5"), RealConst("0.25", "0.25"), RealConst("2.5E2", "250.0"), RealConst("1_0.5", "10.5")])
-            if c.value_repr.endswith(".0"):
+            c = r.choice([RealConst("1.5", "1.5"), RealConst("0.25", "0.25"), RealConst("2.5E2", "250.0"), RealConst("1_0.5", "10.5"),
+                          RealConst("1.0E-7", "1e-7"), RealConst("0.000002", "2e-6"), RealConst("1.5E-7", "1.5e-7"), RealConst("6.02E23", "6.02e23")])
+            if float(c.text.replace("_", "")).is_integer():
                 self.known.add("render-real-integral-as-integer")
             return c
         if k == 10 and d < self.depth:
